@@ -89,6 +89,17 @@ CURATED = [
 ]
 
 
+# while loops whose test reads the variable the body assigns
+CURATED_LOOPS = [
+    [('whiler', 'x', (A,))],
+    [('whiler', 'x', (A, R))],
+    [('if', (A,), ()), ('whiler', 'x', (A,))],
+    [A, ('whiler', 'x', (A,))],
+    [('whiler', 'x', (R,))],
+    [('whiler', 'x', (A,)), R],
+]
+
+
 def number_reads(prog):
     """Assign a unique site id to every atom; returns new program with ('r', var, id) / ('a', var, id)."""
     counter = itertools.count(1)
@@ -102,6 +113,9 @@ def number_reads(prog):
                 out.append(('def', s[1], go(s[2]), next(counter)))
             elif s[0] == 'if':
                 out.append(('if', go(s[1]), go(s[2]), next(counter)))
+            elif s[0] == 'whiler':
+                # a while loop whose test reads a variable: ('whiler', var, body, site of the loop, site of the read)
+                out.append(('whiler', s[1], go(s[2]), next(counter), next(counter)))
             else:
                 out.append((s[0], go(s[1]), next(counter)))
         return out
@@ -113,7 +127,7 @@ def has_call(prog):
 
 
 def has_loop(prog):
-    return any(s[0] in ('while', 'for') or (s[0] == 'if' and (has_loop(s[1]) or has_loop(s[2]))) or
+    return any(s[0] in ('while', 'for', 'whiler') or (s[0] == 'if' and (has_loop(s[1]) or has_loop(s[2]))) or
                (s[0] in ('while', 'for') and has_loop(s[1])) for s in prog)
 
 
@@ -139,6 +153,9 @@ def render(prog, indent=0):
         elif s[0] == 'while':
             out.append(pad + 'while c:')
             out += render(s[1], indent + 1)
+        elif s[0] == 'whiler':
+            out.append(pad + 'while %s:' % s[1])
+            out += render(s[2], indent + 1)
         elif s[0] == 'for':
             out.append(pad + 'for i in data:')
             out += render(s[1], indent + 1)
@@ -162,6 +179,11 @@ def executions(prog):
                 traces = [t + a for t in traces for a in alts]
             elif s[0] == 'if':
                 alts = go(s[1]) + go(s[2])
+                traces = [t + a for t in traces for a in alts]
+            elif s[0] == 'whiler':
+                test = [('r', s[1], s[4])]
+                body = go(s[2])
+                alts = [test] + [test + a + test for a in body] + [test + a + test + b + test for a in body for b in body]
                 traces = [t + a for t in traces for a in alts]
             else:
                 body = go(s[1])
@@ -298,6 +320,10 @@ class AbstractTifa:
             if s[0] == 'if':
                 return Obj('If', kind='if', test=Obj('const', kind='const'), body=[mk_node(x) for x in s[1]],
                            orelse=[mk_node(x) for x in s[2]], site=s[3])
+            if s[0] == 'whiler':
+                return Obj('while', kind='while', test=Obj('r', kind='r', var=s[1], site=s[4]),
+                           body=[mk_node(x) for x in s[2]], orelse=[], site=s[3], iter=Obj('const', kind='const'),
+                           target=Obj('const', kind='const'))
             if s[0] in ('while', 'for'):
                 return Obj(s[0], kind=s[0], test=Obj('const', kind='const'), body=[mk_node(x) for x in s[1]],
                            orelse=[], site=s[2], iter=Obj('const', kind='const'), target=Obj('const', kind='const'))
@@ -381,11 +407,11 @@ def r5_program_table(ctx, sym, tier):
         progs = uniq(programs(4, ('x',), loops=False, depth=2),
                      programs(3, ('x',), loops=False, depth=2, empty_bodies=True),
                      programs(2, ('x', 'y'), loops=False, depth=2, empty_bodies=True))
-        loop_progs = [p for p in programs(2, ('x',), loops=True, depth=2) if has_loop(p)]
+        loop_progs = [p for p in programs(2, ('x',), loops=True, depth=2) if has_loop(p)] + CURATED_LOOPS
     else:
         progs = uniq(programs(3, ('x',), loops=False, depth=2),
                      programs(2, ('x',), loops=False, depth=2, empty_bodies=True), CURATED)
-        loop_progs = [p for p in programs(2, ('x',), loops=True, depth=1) if has_loop(p)]
+        loop_progs = [p for p in programs(2, ('x',), loops=True, depth=1) if has_loop(p)] + CURATED_LOOPS
     # function sweep: a helper that reads the global, defined first and called at one or more points of an
     # if/else program (the property's "function calls" clause: a read that is unassigned on some execution of some
     # call must be reported)
